@@ -146,7 +146,7 @@ func vServe(c *vNetConn) {
 // A connection must never carry two outstanding queries, and exchange 2 must get the reply to its own query.
 func VerifH_C06_CancelThenReuse() {
 	verifrt.Unwind(80)
-	verifrt.SchedBound(4)
+	verifrt.SchedBound(4 + verifrt.Tier) // thorough: one more deviation from the default schedule
 	var conns []*vNetConn
 	t := NewReuseConnTransport(ReuseConnOpts{DialContext: func(ctx context.Context) (net.Conn, error) {
 		c := newVNetConn()
@@ -195,7 +195,7 @@ func VerifH_C06_CancelThenReuse() {
 // timed out still has (part of) a reply in flight and must never be reused.
 func VerifH_C06_TimeoutThenReuse() {
 	verifrt.Unwind(80)
-	verifrt.SchedBound(2)
+	verifrt.SchedBound(2 + verifrt.Tier) // thorough: one more deviation from the default schedule
 	var conns []*vNetConn
 	t := NewReuseConnTransport(ReuseConnOpts{DialContext: func(ctx context.Context) (net.Conn, error) {
 		c := newVNetConn()
@@ -236,7 +236,7 @@ func VerifH_C06_TimeoutThenReuse() {
 // two outstanding queries, and against the healthy server both get the reply to their own query.
 func VerifH_C06_ConcurrentExchanges() {
 	verifrt.Unwind(120)
-	verifrt.SchedBound(2)
+	verifrt.SchedBound(2 + verifrt.Tier) // thorough: one more deviation from the default schedule
 	verifrt.PreemptSync()
 	verifrt.NoTimers() // idle time-outs (seconds) do not strike during the scenario; C06_ConnSteps covers them
 	verifrt.CtxNoExpiry = true
@@ -287,7 +287,7 @@ func VerifH_C06_ConcurrentExchanges() {
 // offered to anyone else: exchange 2 must get the reply to its own query (or fail), never exchange 1's.
 func vAbandonedThenLateReply() {
 	verifrt.Unwind(120)
-	verifrt.SchedBound(2)
+	verifrt.SchedBound(2 + verifrt.Tier) // thorough: one more deviation from the default schedule
 	verifrt.NoTimers()
 	verifrt.CtxNoExpiry = true
 	base := time.Unix(1700000000, 0)
